@@ -25,7 +25,10 @@ fi
 apply_demo() {
 # ---- demonstration files
 DEMO_TESTS=()
-if [ -f "$SD/demo.diff" ]; then
+if [ -f "$SD/demo_target.txt" ]; then
+  # explicit placement: lines "<file under the seed dir> <path in the repository>"
+  while read src dst; do [ -n "$src" ] && mkdir -p "$(dirname "$WT/$dst")" && cp "$SD/$src" "$WT/$dst"; done < "$SD/demo_target.txt"
+elif [ -f "$SD/demo.diff" ]; then
   git apply "$SD/demo.diff" 2>/dev/null || DEMO_APPLY_FAIL=1
 else
   # demo given as files under demo/: copy them keeping the relative path, or guess the crate
